@@ -9,6 +9,7 @@ import (
 	"path/filepath"
 	"regexp"
 	"strings"
+	"time"
 )
 
 var scenarios = map[string]func(*ctx){
@@ -18,6 +19,18 @@ var scenarios = map[string]func(*ctx){
 }
 
 func main() {
+	// a harness whose parent (the check) has gone has no reader: stop, and with it every server / Node child
+	// (they carry Pdeathsig)
+	if pp := os.Getppid(); pp > 1 {
+		go func() {
+			for {
+				time.Sleep(2 * time.Second)
+				if os.Getppid() != pp {
+					os.Exit(99)
+				}
+			}
+		}()
+	}
 	if len(os.Args) < 2 {
 		fmt.Fprintln(os.Stderr, "usage: harness gen|replay ...")
 		os.Exit(2)
